@@ -95,14 +95,18 @@ WantsCat(e) == /\ CatEvery > 0 /\ e.e = "Gen" /\ "cg" \in DOMAIN e /\ e.cg /\ e.
 
 ---------------------------------------------------------------------------
 Init == l = 1
+\* (one boolean, compared with TRUE: TLC then evaluates it as an expression instead of splitting every disjunction
+\*  inside it into separate ways of taking the step)
+EventOK(e) ==
+  IF NeedsOnly
+  THEN \A c \in NeedOf(e) : PrintT(ToJson([kind |-> "need", u |-> c.u, m |-> c.m, st |-> c.st]))
+  ELSE /\ (e.e = "Gen" /\ "t" \in DOMAIN e) => GenOKEvent(e)
+       /\ e.e = "Setup" => SetupOKEvent(e)
+       /\ e.e # "Crash"
+       /\ WantsCat(e) => CatLine(e)
 Step ==
   /\ l <= Len(TraceLog)
-  /\ IF NeedsOnly
-     THEN \A c \in NeedOf(Ev) : PrintT(ToJson([kind |-> "need", u |-> c.u, m |-> c.m, st |-> c.st]))
-     ELSE /\ (Ev.e = "Gen" /\ "t" \in DOMAIN Ev) => GenOKEvent(Ev)
-          /\ Ev.e = "Setup" => SetupOKEvent(Ev)
-          /\ Ev.e # "Crash"
-          /\ WantsCat(Ev) => CatLine(Ev)
+  /\ EventOK(Ev) = TRUE
   /\ l' = l + 1
 Spec == Init /\ [][Step]_l
 Accepted == TLCGet("stats").diameter = Len(TraceLog) + 1
